@@ -41,7 +41,12 @@ def handleRules (op : String) (a : Json) : Option Json :=
   | "rules" =>
     let items := (getArr a "items").map toItem
     let ctx := toCtx (fld a "links")
-    some (outcomeJson (verifyArtifacts goGlob items ctx))
+    let r := verifyArtifacts goGlob items ctx
+    -- the caller's links after the call, compared with what was handed in
+    let same : Bool := match r with | .ok ctx' => decide (ctx' = ctx) | _ => true
+    some (match outcomeJson r with
+      | Json.obj kvs => Json.obj (kvs.insert "links_same" (Json.bool same))
+      | j => j)
   | "clean" => some (Json.arr ((getStrs a "paths").map fun p => Json.str (S (Path.clean (L p)))).toArray)
   | _ => none
 
